@@ -3,6 +3,8 @@ package main
 import (
 	"flag"
 	"fmt"
+	"go/ast"
+	"go/types"
 	"os"
 	"path/filepath"
 	"runtime"
@@ -184,12 +186,24 @@ func execPass(run *Run, pd *PropDoc, arch string, overlay map[string][]byte) {
 	guardGaps = map[*PkgIndex]map[string]string{}
 	resetNormalised()
 	definedCache = sync.Map{}
+	fgByBody = sync.Map{}
+	constTablesMu.Lock()
+	constTables = map[*types.Var]*constTable{}
+	structTables = map[*types.Var]*structTable{}
+	tableLookupDefs = map[types.Object]ast.Expr{}
+	constTablesMu.Unlock()
 	c.Preload(pd.Modules...)
 	pd.Fn(c)
 	declRegistry = sync.Map{}
 	guardGaps = map[*PkgIndex]map[string]string{}
 	resetNormalised()
 	definedCache = sync.Map{}
+	fgByBody = sync.Map{}
+	constTablesMu.Lock()
+	constTables = map[*types.Var]*constTable{}
+	structTables = map[*types.Var]*structTable{}
+	tableLookupDefs = map[types.Object]ast.Expr{}
+	constTablesMu.Unlock()
 	runtime.GC()
 }
 
